@@ -476,6 +476,36 @@ def _desugar_comprehension_loops(stmts):
     return out
 
 
+def _desugar_any_all(stmts):
+    """flag = any(<test> for v in it)   ->   flag = False; for v in it: if <test>: flag = True
+    flag = all(<test> for v in it)   ->   flag = True;  for v in it: if not <test>: flag = False
+    (same value; the tests of this code base have no side effects)."""
+    out = []
+    for s in stmts:
+        for fld in ("body", "orelse", "finalbody"):
+            if isinstance(getattr(s, fld, None), list) and not isinstance(s, (ast.FunctionDef, ast.ClassDef)):
+                setattr(s, fld, _desugar_any_all(getattr(s, fld)))
+        for hnd in getattr(s, "handlers", []) or []:
+            hnd.body = _desugar_any_all(hnd.body)
+        v = s.value if isinstance(s, ast.Assign) and len(s.targets) == 1 and isinstance(s.targets[0], ast.Name) else None
+        if isinstance(v, ast.Call) and isinstance(v.func, ast.Name) and v.func.id in ("any", "all") and len(v.args) == 1 and not v.keywords \
+                and isinstance(v.args[0], (ast.GeneratorExp, ast.ListComp)) and not _has(v.args[0], (ast.NamedExpr, ast.Lambda)):
+            comp, is_any = v.args[0], v.func.id == "any"
+            tgt = s.targets[0].id
+            if not any(isinstance(n, ast.Name) and n.id == tgt for n in ast.walk(comp)):
+                test = comp.elt if is_any else ast.UnaryOp(op=ast.Not(), operand=comp.elt)
+                inner = [ast.copy_location(ast.If(test=test, body=[ast.copy_location(ast.Assign(targets=[ast.Name(id=tgt, ctx=ast.Store())], value=ast.Constant(value=is_any)), s)], orelse=[]), s)]
+                for gen in reversed(comp.generators):
+                    for cond in reversed(gen.ifs):
+                        inner = [ast.copy_location(ast.If(test=cond, body=inner, orelse=[]), s)]
+                    inner = [ast.copy_location(ast.For(target=gen.target, iter=gen.iter, body=inner, orelse=[]), s)]
+                out.append(ast.copy_location(ast.Assign(targets=[ast.Name(id=tgt, ctx=ast.Store())], value=ast.Constant(value=not is_any)), s))
+                out.append(inner[0])
+                continue
+        out.append(s)
+    return out
+
+
 def _comp_to_loops(comp, target, body, at):
     inner = [ast.copy_location(ast.Assign(targets=[_clone(target)], value=comp.elt), at)] + body
     for gen in reversed(comp.generators):
@@ -655,6 +685,77 @@ def _split_ifexp_calls(stmts):
     return out
 
 
+def _inline_local_closures(fn):
+    """def helper(...): return <expr>  defined inside *fn* and only ever called there: the calls are replaced by the
+    expression (a closure reads its free variables when it is called, so substituting at the call site is exact)."""
+    changed = False
+    for _ in range(4):
+        nested = []
+        for n in ast.walk(fn):
+            for fld in ("body", "orelse", "finalbody"):
+                lst = getattr(n, fld, None)
+                if isinstance(lst, list) and (n is fn or not isinstance(n, (ast.FunctionDef, ast.AsyncFunctionDef, ast.ClassDef, ast.Lambda))):
+                    for st in lst:
+                        if isinstance(st, ast.FunctionDef):
+                            nested.append((lst, st))
+        done = False
+        for lst, d in nested:
+            # directly nested in fn (not inside another nested def)
+            expr = _single_expr_helper(d)
+            if expr is None or d.decorator_list:
+                continue
+            a = d.args
+            if a.vararg or a.kwarg or a.posonlyargs or a.kwonlyargs:
+                continue
+            refs = [n for n in ast.walk(fn) if isinstance(n, ast.Name) and n.id == d.name]
+            calls = [c for c in ast.walk(fn) if isinstance(c, ast.Call) and isinstance(c.func, ast.Name) and c.func.id == d.name]
+            if not calls or len(refs) != len(calls) or any(isinstance(r.ctx, ast.Store) for r in refs):
+                continue
+            if any(any(x is c for x in ast.walk(d)) for c in calls):
+                continue  # recursive
+            params = [x.arg for x in a.args]
+            defaults = dict(zip(params[len(params) - len(a.defaults):], a.defaults))
+            plan = []
+            for c in calls:
+                if any(k.arg is None for k in c.keywords) or any(isinstance(x, ast.Starred) for x in c.args) or len(c.args) > len(params):
+                    plan = None
+                    break
+                bound = dict(zip(params, c.args))
+                for k in c.keywords:
+                    bound[k.arg] = k.value
+                for p in params:
+                    if p not in bound and p in defaults:
+                        bound[p] = defaults[p]
+                if set(bound) != set(params):
+                    plan = None
+                    break
+                uses = {}
+                for n in ast.walk(expr):
+                    if isinstance(n, ast.Name) and n.id in bound:
+                        uses[n.id] = uses.get(n.id, 0) + 1
+                if any(not _pure_arg(v) and uses.get(p, 0) > 1 for p, v in bound.items()):
+                    plan = None
+                    break
+                plan.append((c, bound))
+            if not plan:
+                continue
+            repl = {id(c): _Subst({p: v for p, v in bound.items()}).visit(_clone(expr)) for c, bound in plan}
+
+            class R(ast.NodeTransformer):
+                def visit_Call(self_, c):
+                    self_.generic_visit(c)
+                    return ast.copy_location(repl[id(c)], c) if id(c) in repl else c
+            lst.remove(d)
+            if not lst:
+                lst.append(ast.copy_location(ast.Pass(), d))
+            R().visit(fn)
+            changed = done = True
+            break
+        if not done:
+            break
+    return changed
+
+
 def _propagate_option_flags(fn):
     """flag = <...>.options.<field>  (bound once)  ->  uses of flag replaced by the attribute chain."""
     stores = {}
@@ -684,6 +785,7 @@ def canonical_function(mod, fn, depth=3):
         return cache[id(fn)][0]
     pre = _clone(fn)
     pre.qual, pre.module, pre.cls = fn.qual, fn.module, getattr(fn, "cls", None)
+    _inline_local_closures(pre)
     pre.body = _hoist_nested_helper_calls(mod, pre.body, fn)
     hoisted = ast.dump(pre) != ast.dump(fn)
     base = inline_function(mod, pre if hoisted else fn, depth)
@@ -696,6 +798,7 @@ def canonical_function(mod, fn, depth=3):
         new.inlined_helpers = sorted(set(getattr(base, "inlined_helpers", [])) | set(elog))
     before = ast.dump(new)
     new.body = _desugar_comprehension_loops(new.body)
+    new.body = _desugar_any_all(new.body)
     new.body = _split_ifexp_calls(new.body)
     new = _propagate_option_flags(new)
     local_names = _assigned_names(new)
